@@ -808,7 +808,7 @@ class Func:
         return [{"decl": d % g[0].n, "function_suffix": sfx} for d, sfx in g[0].gen]
 
     def cfi_ok(self):
-        """can this function be wrapped with F_CFI=true?  Since the /repo fixes 653ba91 (arguments), 97a7646 and 302a66e
+        """can this function be wrapped with F_CFI=true?  Since the /repo fixes b7285e7 (arguments), 97a7646 and 302a66e
         (results) every kind is: arguments and results without `_cfi` statements take the bufferify statements inside
         the CFI function.  Kept as a hook: return False here to exclude a function from the F_CFI configurations."""
         return True
